@@ -285,9 +285,13 @@ SampleLeafCore(L, whales, kept) ==
   /\ IF Opt.quota THEN whales = {} /\ kept = {} /\ SampleQuotaCore(L) ELSE SampleRowsCore(L, whales, kept)
   /\ todo' = todo \ {L.id}
   /\ UNCHANGED <<input, phase, nadd, ro, plan>>
+\* the choices sampler.sample has on leaf L (enumerated directly; SampleRowsCore checks them again)
+WhaleChoices(L) == IF Opt.quota \/ LeafSingle(L) THEN {{}} ELSE TopSets(L.items, WhalePos(L))
+KeptChoices(L, whales) ==
+  IF Opt.quota \/ LeafSingle(L) THEN {{}} ELSE Selections(L.items \ whales, LeafFn(L), LeafFd(L), WhalePos(L) > 0)
 SampleLeaf ==
   /\ phase = "sample" /\ todo # {}
-  /\ LET L == NextLeaf IN \E whales \in SUBSET L.items : \E kept \in SUBSET (L.items \ whales) :
+  /\ LET L == NextLeaf IN \E whales \in WhaleChoices(L) : \E kept \in KeptChoices(L, whales) :
         SampleLeafCore(L, whales, kept)
 
 FinishCore == /\ phase = "sample" /\ todo = {} /\ phase' = "done"
@@ -370,7 +374,7 @@ QuotaSum(S) == LET RECURSIVE Q(_)
                    Q(T) == IF T = {} THEN 0 ELSE LET i == CHOOSE i \in T : TRUE
                                                 IN (IF Dec(i).d = "keep" THEN Dec(i).q ELSE 0) + Q(T \ {i})
                IN Q(S)
-QuotaWithinTotalOf(rmode) == Done /\ Opt.quota /\ rmode = "floor" => QuotaSum(Free) <= Max(input.budget, 0)
+QuotaWithinTotalOf(rmode) == Done /\ Opt.quota /\ rmode = "floor" /\ ~Forced => QuotaSum(Free) <= Max(input.budget, 0)
 QuotaWithinTotal == QuotaWithinTotalOf(RoundMode)
 QuotaProportional ==
   Done /\ Opt.quota => \A L \in Leaves(plan) : \A i \in L.items :
@@ -381,7 +385,7 @@ QuotaProportional ==
 QuotaFitIsSize == Done /\ Opt.quota => \A x \in Keeps(plan) : \A i \in x.items : Dec(i).q = It(i).size
 \* with any rounding every rounded group adds less than one unit
 QuotaWithinTotalAnyRounding ==
-  Done /\ Opt.quota => QuotaSum(Free) <= input.budget + Cardinality({n \in Nodes(plan) : n.id # <<>>})
+  Done /\ Opt.quota /\ ~Forced => QuotaSum(Free) <= Max(input.budget, 0) + Cardinality({n \in Nodes(plan) : n.id # <<>>})
 
 TypeOK == phase \in {"new", "add", "sample", "done"} /\ nadd \in 0..N
 ===============================================================================
